@@ -208,7 +208,12 @@ func (k c14) positive(c *rt.Ctx, st *gen.Store) {
 			"select key, list(strlen(key), 2)[0] * 2 as x where x >= 0 & list(1, 2)[1] = 2",
 			"select int_list(strlen(key), 7) as l, key where l[1] = 7 & l[0] between 0 and 99",
 			"select key where split('a,b', ',')[0] = 'a' & list('x', 'y')[1] ^= 'y'",
-		}[r.Intn(18)]
+			// an aggregate call as the right operand of arithmetic
+			"select 1 + count(1) as c where true",
+			"select 100 - sum(strlen(key)) as c, count(1) where key != 'zz'",
+			"select value, 2 * sum(strlen(key)) as s where true group by value",
+			"select value, count(1) * 2 + (1 + max(strlen(key))) as s where true group by value",
+		}[r.Intn(22)]
 		rec.Inc("group_by_unselected_fields_and_boolean_operands")
 	}
 	rec.DistinctS(q)
@@ -417,13 +422,16 @@ func (k c14) negative(c *rt.Ctx, st *gen.Store) {
 			"select key, upper(value) as u where key ^= 'b' & u",
 			"select strlen(key) as n where !(key = 'a') | n",
 			"select split(value, ',') as l, key where l & key != 'zz'",
+			"select key, upper(value) as u where key in u",
+			"select strlen(key) as n, key where !(n in n) | key = 'a'",
+			"select key, value as v, key in v as hit where true",
 			"select key as a, a + 'x' as b where b > 1",
 			"select key as a, a + 'x' as b where b between 1 and 2",
 			"select key as a, a + 'x' as b, value where strlen(value) >= b",
 			"select value as v0, v0 + ':' + key as c where !(c = 1)",
 			"select strlen(key) as n, n * 2 as m where m ^= 'k'",
 			"select key as a, upper(a) as u, u + a as w where w * 2 > 1",
-		}[r.Intn(10)]
+		}[r.Intn(13)]
 		fault, pos = "operand-type", "name-chain"
 	case 18: // unknown function / wrong argument count nested below an IN item or a BETWEEN bound
 		bad := []string{"upper('c', 'd')", "nosuch('x')", "lower(upper('b', 'c'))", "upper(nosuch2('x'))", "str(int(value, 2))", "join()"}[r.Intn(6)]
